@@ -234,6 +234,7 @@ let parse_step (t : string) : (action * char) =
   let n = String.length t in
   match t.[0] with
   | 'r' -> (AReply (t.[1] = '1', parse_value_desc (String.sub t 4 (n - 4))), t.[2])
+  | 'd' -> (AReply (false, parse_value_desc (String.sub t 4 (n - 4))), t.[2])     (* a reply under a context with its own deadline: a reply *)
   | 'e' ->
     let rest = String.sub t 3 (n - 3) in
     let i = String.index rest ':' in
@@ -335,7 +336,7 @@ let stops (r : string) : bool =
 let e2e_run (line : string) : string =
   let secs = split_on_string " | " line in
   let is_op sec = match fields sec with
-    | ("call" | "slowcall" | "plaincall" | "typedcall" | "upcall" | "getinfo" | "getdescr" | "resolver-getinfo" | "resolve") :: _ -> true | _ -> false in
+    | ("call" | "slowcall" | "plaincall" | "typedcall" | "upcall" | "window" | "reconnect2" | "stale" | "getinfo" | "getdescr" | "resolver-getinfo" | "resolve") :: _ -> true | _ -> false in
   let c = parse_svc_case (String.concat " | " (List.filter (fun sec -> not (is_op sec) && (match fields sec with "transport" :: _ -> false | _ -> true)) secs)) in
   let reg = (match c.reg with Some r -> r | None -> failwith "no svc") in
   let hs = handlers_of c in
@@ -398,6 +399,18 @@ let e2e_run (line : string) : string =
               | Some (RvReply (p, _)) -> out := ("call=ok " ^ (match p with None -> "N" | Some x -> "R" ^ hex_of_bytes x)) :: !out
               | _ -> out := ("call=" ^ s) :: !out; if stops s then stop := true)
            | _ -> out := "call=senderr" :: !out)
+        | ("window" | "reconnect2" | "stale") :: ms :: _ ->
+          (* pipelining changes nothing: the service answers the calls in order, each receive gets the next reply *)
+          let got = List.map (fun m ->
+              match client_send N0 (bytes_of_hex m) PNone with
+              | SSent msg ->
+                exchange 0 msg;
+                let (s, r) = receive 0 in
+                (match r with
+                 | Some (RvReply (p, _)) -> (match p with None -> "N" | Some x -> "R" ^ hex_of_bytes x)
+                 | _ -> s)
+              | _ -> "senderr") (String.split_on_char ',' ms) in
+          out := ("win=" ^ String.concat "," got) :: !out
         | "upcall" :: m :: v :: _ ->
           (match client_send (n_of_int 8) (bytes_of_hex m) (call_params (parse_value_desc v)) with
            | SSent msg ->
@@ -581,7 +594,13 @@ and life_run1 (line : string) : string =
         quiesce 1000; r
       | "call" :: id :: _ ->
         (match conn_st !st (nat_of_int (int_of_string id)) with CServed -> "ok" | _ -> "err")
-      | "badcall" :: id :: _ ->
+      | "stall" :: id :: _ ->
+        (match conn_st !st (nat_of_int (int_of_string id)) with CServed -> "ok" | _ -> "err")
+      | "ctxcancel" :: _ ->
+        (* cancellation of the serving context ends every connection that is being served *)
+        List.iteri (fun i c -> match c with CServed | CHeld -> ignore (step (LEnd (nat_of_int i))); quiesce 1000 | _ -> ()) !st.conns;
+        "ended"
+      | ("badcall" | "badcall-keep") :: id :: _ ->
         let c = nat_of_int (int_of_string id) in
         (match conn_st !st c with
          | CServed -> ignore (step (LEnd c)); quiesce 1000; "ended"
